@@ -531,7 +531,7 @@ class StateRun(object):
         self.next_sid += 1 + self.ch.draw(3, 'sidgap')
         return sid
 
-    def w_stream_new(self, via=None, sport=None, target=None):
+    def w_stream_new(self, via=None, sport=None, target=None, saddr='127.0.0.1'):
         ch = self.ch
         s = WStream(self.new_sid())
         s.via = via
@@ -554,8 +554,8 @@ class StateRun(object):
             if sport is None:
                 self.next_sport += 1 + ch.draw(4, 'sportgap')
                 sport = self.next_sport
-            s.source = ('127.0.0.1', sport)
-            extra = ['SOURCE_ADDR=127.0.0.1:%d' % sport, 'PURPOSE=USER']
+            s.source = (saddr.strip('[]'), sport)
+            extra = ['SOURCE_ADDR=%s:%d' % (saddr, sport), 'PURPOSE=USER']
             if not from_socks and ch.chance(1, 8, 'torinternal'):
                 s.source = ('(Tor_internal)', 0)
                 extra = ['SOURCE_ADDR=(Tor_internal):0', 'PURPOSE=DIR_FETCH']
